@@ -580,6 +580,11 @@ SELFREF_SHAPES = {
     "alias-and-self": (True, True),      # .link K + x - s   with x = e defined before e:  (v = the base being computed)
     "alias-only": (True, False),
     "self-only": (False, True),
+    # the alias cannot be evaluated speculatively (its body calls not_ready(): a symbol exported by ANOTHER file is committed to only when
+    # everything is known), and an alias of such an alias: '.link K + x - s' / 'x = e' with 'e::' in a later file
+    "late-alias-and-self": (True, True),
+    "late-alias-chain-and-self": (True, True),
+    "late-alias-only": (True, False),
 }
 
 
@@ -599,8 +604,12 @@ def unit_poly_wait_selfref(eng, shape):
         other = poly_var(eng, "x1")[0]
         eng.call(eng.getattr(other, "settle"), [other.attrs["_sigma"]], {})
         q = mk_poly(eng, ([v] if q_has_v else []) + [other], "q")
-        d = new_deferred(eng, INT, counter_fn(eng, q, []))
+        d = new_deferred(eng, INT, counter_fn(eng, q, [], raises="not_ready" if shape.startswith("late") else None))
         d.attrs["_sigma"] = poly_value(eng, q)
+        if "chain" in shape:
+            d0 = d
+            d = new_deferred(eng, INT, counter_fn(eng, d0, [], raises="not_ready"))
+            d.attrs["_sigma"] = d0.attrs["_sigma"]
         p = mk_poly(eng, [d] + ([v] if direct else []), "p")
         cell["p"] = p
         a = q.attrs["coeffs"].get(v, 0)
@@ -640,7 +649,19 @@ keys = ([v] if %r else []) + [other]
 for n, k in enumerate(keys):
     qc[k] = g("q_c%%d" %% n)
 q = LinearPolynomial[int](qc, g("q_k", 0))
-d = Deferred(int, lambda: q)
+from pdpy11.deferred import not_ready
+late, chain = %r, %r
+def body():
+    if late:
+        not_ready()
+    return q
+d = Deferred(int, body)
+if chain:
+    d0 = d
+    def body2():
+        not_ready()
+        return d0
+    d = Deferred(int, body2)
 pk = [d] + ([v] if %r else [])
 p = LinearPolynomial[int]({k: g("p_c%%d" %% n) for n, k in enumerate(pk)}, g("p_k", 0))
 cell["p"] = p
@@ -653,7 +674,7 @@ except DeferredCycle:
     got = ("DeferredCycle", None)
 want = ("return", rest) if net == 0 else ("DeferredCycle", None)
 result = dict(net_coefficient_of_v=net, want=want, got=got, ok=(tuple(got) == tuple(want)))
-""" % (w, q_has_v, direct, direct)
+""" % (w, q_has_v, cfg["shape"].startswith("late"), "chain" in cfg["shape"], direct, direct)
     jobs = [dict(kind="py", code=code)]
     res = driver.native(jobs, tree)
     r = res[0].get("result") or res[0]
